@@ -483,3 +483,6 @@ func ConcreteString(v Value) (string, bool) {
 	}
 	return "", false
 }
+
+// NewError returns an error value with the given text (as the fmt/errors stubs make them).
+func (m *Machine) NewError(text string) Value { return m.P.mkErr(text) }
